@@ -46,7 +46,7 @@ def run_one(patch, props, tier='quick'):
         if r.returncode != 0:
             return [(patch, p, 'PATCH-FAILED', r.stdout + r.stderr) for p in props]
         res = []
-        env = dict(os.environ, CIRCUS_REPO=scratch, VERIF_NO_EVIDENCE='1')
+        env = dict(os.environ, CIRCUS_REPO=scratch, VERIF_OUT_DIR=os.path.join(scratch, 'out'))
         for p in props:
             c = subprocess.run([os.path.join(HERE, 'check'), p, '--tier', tier], cwd=HERE, env=env,
                                capture_output=True, text=True)
@@ -73,23 +73,12 @@ def main():
                             glob.glob(os.path.join(HERE, 'seeded', '*', 'patch.diff'))):
             jobs.append((patch, expected(patch)))
     bad = 0
-    # evidence files are rewritten by checks; keep the committed ones
-    keep = tempfile.mkdtemp(prefix='verif-ev-')
-    if os.path.isdir(os.path.join(HERE, 'evidence')):
-        shutil.copytree(os.path.join(HERE, 'evidence'), os.path.join(keep, 'evidence'))
-    try:
-        with cf.ThreadPoolExecutor(max_workers=int(os.environ.get('SELFTEST_JOBS', '2'))) as ex:
-            for res in ex.map(lambda j: run_one(j[0], j[1], tier), jobs):
-                for patch, p, verdict, info in res:
-                    print('%-12s %-4s %s   %s' % (verdict, p, os.path.relpath(patch, HERE), info))
-                    if verdict != 'CAUGHT':
-                        bad += 1
-    finally:
-        if os.path.isdir(os.path.join(keep, 'evidence')):
-            shutil.rmtree(os.path.join(HERE, 'evidence'), ignore_errors=True)
-            shutil.copytree(os.path.join(keep, 'evidence'), os.path.join(HERE, 'evidence'))
-        shutil.rmtree(keep, ignore_errors=True)
-        shutil.rmtree(os.path.join(HERE, 'replays'), ignore_errors=True)
+    with cf.ThreadPoolExecutor(max_workers=int(os.environ.get('SELFTEST_JOBS', '2'))) as ex:
+        for res in ex.map(lambda j: run_one(j[0], j[1], tier), jobs):
+            for patch, p, verdict, info in res:
+                print('%-12s %-4s %s   %s' % (verdict, p, os.path.relpath(patch, HERE), info))
+                if verdict != 'CAUGHT':
+                    bad += 1
     sys.exit(1 if bad else 0)
 
 
